@@ -19,7 +19,7 @@
 //   wsup <n> SUPPR*n             -> "W <hex>"                    PipeWriter::writeSuppr
 //   hr <emitdup> <ids> <hex>     -> events of ProcessExecutor::handleRead called until it returns false, on a pipe holding <hex>
 //   htl <emitdup> <ids> <n> MSG*n-> "H <bits>"                   Executor::hasToLog on the sequence (template "{id}")
-//        ids = comma separated hex error ids given as global suppressions ("-" = none)
+//        ids = comma separated global suppressions ("-" = none): <hexid> = --suppress=<id>, <hexid>@<line> = --suppress=<id>:*:<line>
 #include "common.h"
 #include <algorithm>
 #include <array>
@@ -199,8 +199,14 @@ void setup(Settings& settings, Suppressions& supprs, bool emitdup, const std::st
     if (ids != "-") {
         std::istringstream is(ids);
         std::string cur;
-        while (std::getline(is, cur, ','))
-            supprs.nomsg.addSuppressionLine(unhex(cur));
+        while (std::getline(is, cur, ',')) {
+            // "<hexid>" = --suppress=<id>;  "<hexid>@<line>" = --suppress=<id>:*:<line>  (both non-local)
+            const std::string::size_type at = cur.find('@');
+            if (at == std::string::npos)
+                supprs.nomsg.addSuppressionLine(unhex(cur));
+            else
+                supprs.nomsg.addSuppressionLine(unhex(cur.substr(0, at)) + ":*:" + cur.substr(at + 1));
+        }
     }
 }
 
